@@ -652,7 +652,55 @@ class ObjModels:
 
 		def value_unordered_eq(ip, st, a):
 			x, y = deref_val(ip, st, a[0]), deref_val(ip, st, a[1])
-			return x == y  # values are scalar tags in this check
+			if isinstance(x, Agg) and x.ty == "Value":
+				# real values (nested mode): the crate's MIR
+				fn = prog.resolve("Value::@unordered_eq", None, [])
+				if fn is None:
+					raise MirError("<Value as UnorderedPartialEq>::unordered_eq not found in the MIR dump")
+				return [(st, CallFn(fn, [a[0], a[1]]))]
+			return [(st, x == y)]  # values are scalar tags in the flat check
+
+		def vec_unordered_eq(ip, st, a):
+			fn = prog.resolve("Vec::@unordered_eq", None, [])
+			if fn is None:
+				raise MirError("<Vec<T> as UnorderedPartialEq>::unordered_eq not found in the MIR dump")
+			return [(st, CallFn(fn, [a[0], a[1]]))]
+
+		def zip_all(ip, st, a):
+			"""`a.iter().zip(b).all(f)`: std's contract — the predicate on the pairs in order up to the
+			shorter length, false at the first failure; the predicate is the crate's MIR"""
+			z = self.rd(ip, st, a[0])
+			ia, ib = z.fields
+
+			def items(it):
+				ref, pos = it.fields[0], it.fields[1]
+				v = deref_val(ip, st, ref)
+				b = ref
+				while isinstance(self.rd(ip, st, b), Ref):
+					b = self.rd(ip, st, b)
+				return [Ref(b[0], b[1], b[2] + (j,)) for j in range(pos, len(v[1]))]
+
+			pairs = list(zip(items(ia), items(ib)))
+			c = ip.fn_value_call(a[1], [None])
+			if c is None:
+				raise MirError("Zip::all with %r" % (a[1],))
+			fi = len(st.frames) - 1
+			st.frames[fi].locals[900 + fi] = c.args[0]
+			out = []
+			work = [(st, 0)]
+			while work:
+				s_, j = work.pop()
+				if j >= len(pairs):
+					out.append((s_, True))
+					continue
+				for s2, r in ip.run_sub(s_, c.fn, [Ref(fi, 900 + fi, ()), Agg("tuple", None, pairs[j])]):
+					if not isinstance(r, bool):
+						raise MirError("closure returned %r" % (r,))
+					if r:
+						work.append((s2, j + 1))
+					else:
+						out.append((s2, False))
+			return out
 
 		def contains_dups(ip, st, a):
 			return any(o for _, o in deref_val(ip, st, a[0])[1])
@@ -854,8 +902,15 @@ class ObjModels:
 			"<EntriesWithIndex as Iterator>::any": iter_any_all(False),
 			"<std::slice::Iter as Iterator>::all": iter_any_all(True),
 			"<std::slice::Iter as Iterator>::any": iter_any_all(False),
-			"<Value as unordered::UnorderedPartialEq>::unordered_eq": one(value_unordered_eq),
-			"<Value as UnorderedPartialEq>::unordered_eq": one(value_unordered_eq),
+			"<Value as unordered::UnorderedPartialEq>::unordered_eq": value_unordered_eq,
+			"<Value as UnorderedPartialEq>::unordered_eq": value_unordered_eq,
+			"<T as unordered::UnorderedPartialEq>::unordered_eq": value_unordered_eq,
+			"<T as UnorderedPartialEq>::unordered_eq": value_unordered_eq,
+			"<Vec as unordered::UnorderedPartialEq>::unordered_eq": vec_unordered_eq,
+			"<Vec as UnorderedPartialEq>::unordered_eq": vec_unordered_eq,
+			"<&bool as PartialEq>::eq": one(lambda ip, st, a: deref_val(ip, st, a[0]) == deref_val(ip, st, a[1])),
+			"<std::slice::Iter as Iterator>::zip": one(lambda ip, st, a: Agg("Zip", None, (a[0], slice_iter(ip, st, [a[1]])))),
+			"<Zip as Iterator>::all": zip_all,
 			"IndexMap::contains_duplicate_keys": one(contains_dups),
 			"std::vec::from_elem": one(from_elem),
 			"alloc::vec::from_elem": one(from_elem),
@@ -1039,6 +1094,9 @@ class ObjProgram:
 			"<object::IterMapped as Iterator>::next": r"^object::<impl at src/object/mod\.rs:[0-9: ]+>::next\(_1: &mut object::IterMapped<",
 			"<IterMapped as Iterator>::next": r"^object::<impl at src/object/mod\.rs:[0-9: ]+>::next\(_1: &mut (object::)?IterMapped<",
 			"Value::kind": r"^<impl at src/lib\.rs:[0-9: ]+>::kind\(_1: &Value\) -> Kind",
+			"Value::@unordered_eq": r"^<impl at src/lib\.rs:[0-9: ]+>::unordered_eq\(_1: &Value, _2: &Value\)",
+			"Vec::@unordered_eq": r"^unordered::<impl at src/unordered\.rs:[0-9: ]+>::unordered_eq\(_1: &Vec<T>, _2: &Vec<T>\)",
+			"<Object as unordered::UnorderedPartialEq>::unordered_eq": r"^object::<impl at src/object/mod\.rs:[0-9: ]+>::unordered_eq\(_1: &Object, _2: &Object\)",
 			"Value::get_fragment": r"^<impl at src/lib\.rs:[0-9: ]+>::get_fragment\(_1: &Value, _2: usize\)",
 			"Value::traverse": r"^<impl at src/lib\.rs:[0-9: ]+>::traverse\(_1: &Value\)",
 			"Value::volume": r"^<impl at src/lib\.rs:[0-9: ]+>::volume\(_1: &Value\)",
@@ -1475,19 +1533,22 @@ class Explorer:
 		if "@unordered_eq" not in prog.by:
 			raise MirError("Object::unordered_eq not found in the MIR dump")
 		self.pairs = 0
-		for n in range(0, n_max + 1):
-			for vals in itertools.product((0, 1), repeat=2 * n):
-				# build A then B by pushes (interpreted), from the empty object
+		sizes = [(n, n) for n in range(0, n_max + 1)] + [(n, m) for n in range(0, n_max + 1) for m in range(0, n_max + 1) if n != m]
+		for n, m in sizes:
+			for vals in itertools.product((0, 1), repeat=n + m):
+				# build A (n entries) then B (m entries) by pushes (interpreted), from the empty object
 				st = State()
 				st.frames.append(Frame(None, {1: Agg("Object", None, (("vec", ()), ("imap", ())))}))
 				st.aux["nk"] = 0
 				states = [(st, [])]
-				for j in range(2 * n):
+				for j in range(n + m + 1):
 					if j == n:
 						for s, _ in states:
 							s.frames[0].locals[8] = s.frames[0].locals[1]
 							s.frames[0].locals[1] = Agg("Object", None, (("vec", ()), ("imap", ())))
 						states = [(s, []) for s, _ in states]
+					if j == n + m:
+						break
 					nxt = []
 					for s, model in states:
 						k = s.aux["nk"]
@@ -1497,12 +1558,9 @@ class Explorer:
 						for s2, res in self.call(s, prog.by["push"], [Ref(0, 1, ()), ("key", k), vals[j]]):
 							nxt.append((s2, model + [(k, vals[j])]))
 					states = nxt
-				if n == 0:
-					for s, _ in states:
-						s.frames[0].locals[8] = s.frames[0].locals[1]
 				for s, modelB in states:
 					A = [(key_of(e.fields[0]), e.fields[1]) for e in s.frames[0].locals[8].fields[0][1]]
-					B = modelB if n else []
+					B = modelB
 					for (x, y, tag) in ((8, 1, "A,B"), (1, 8, "B,A")):
 						for s2, res in self.call(s.fork(), prog.by["@unordered_eq"], [Ref(0, x, ()), Ref(0, y, ())]):
 							for s3, want in self.multiset_eq(s2, A, B):
@@ -1512,6 +1570,124 @@ class Explorer:
 									               "returned %r for A=%r B=%r (key,value pairs by key variable), expected %r" % (res, A, B, want))
 				if len(self.violations) >= 6 or (budget and time.time() - t0 > budget):
 					return
+
+	def explore_unordered_nested(self, level, budget):
+		"""C15, nested values: `Value::unordered_eq`, `Vec<Value>::unordered_eq` (with its closure) and
+		`Object::unordered_eq` from MIR, recursively, on pairs of values with nested arrays and objects.
+		Every key of every object is a SYMBOLIC key (its own solver variable; which keys coincide is
+		decided lazily, also inside the index while the objects are built by interpreted pushes);
+		scalars are booleans. Oracle: the recursive definition — scalars equal, arrays of the same
+		length and pointwise equivalent, objects multiset-equal under (key equal and values
+		equivalent) — evaluated with the same lazily decided key equalities. Both argument orders."""
+		t0 = time.time()
+		prog = self.prog
+		fn = prog.resolve("Value::@unordered_eq", None, [])
+		if fn is None:
+			raise MirError("<Value as UnorderedPartialEq>::unordered_eq not found in the MIR dump")
+		self.ip.enums["Value"] = enum_variants(self.repo, "src/lib.rs", "Value")
+		self.pairs = 0
+		EMPTY = Agg("Object", None, (("vec", ()), ("imap", ())))
+
+		def build(st, shape):
+			"""[(state, Agg value, model)]; model: ("s", b) | ("arr", [models]) | ("obj", [(keyvar, model)])"""
+			if shape in ("t", "f"):
+				return [(st, Agg("Value", "Boolean", (shape == "t",)), ("s", shape))]
+			if shape[0] == "arr":
+				outs = [(st, [], [])]
+				for c in shape[1]:
+					nxt = []
+					for s_, vals, ms in outs:
+						for s2, v, m_ in build(s_, c):
+							nxt.append((s2, vals + [v], ms + [m_]))
+					outs = nxt
+				return [(s_, Agg("Value", "Array", (("vec", tuple(vals)),)), ("arr", ms)) for s_, vals, ms in outs]
+			outs = [(st, EMPTY, [])]
+			for c in shape[1]:
+				nxt = []
+				for s_, ob, ms in outs:
+					for s2, v, m_ in build(s_, c):
+						k = s2.aux["nk"]
+						s2.aux["nk"] = k + 1
+						while len(self.keys.vars) <= k:
+							self.keys.fresh()
+						slot = 3000 + s2.aux.get("slots", 0)
+						s2.aux["slots"] = s2.aux.get("slots", 0) + 1
+						s2.frames[0].locals[slot] = ob
+						for s3, _ in self.call(s2, prog.by["push"], [Ref(0, slot, ()), ("key", k), v]):
+							nxt.append((s3, s3.frames[0].locals[slot], ms + [(k, m_)]))
+				outs = nxt
+			return [(s_, Agg("Value", "Object", (ob,)), ("obj", ms)) for s_, ob, ms in outs]
+
+		def ueq(st, a, b):
+			"""[(state, bool)] — the recursive definition"""
+			if a[0] != b[0]:
+				return [(st, False)]
+			if a[0] == "s":
+				return [(st, a[1] == b[1])]
+			if len(a[1]) != len(b[1]):
+				return [(st, False)]
+			if a[0] == "arr":
+				outs = [(st, True)]
+				for x, y in zip(a[1], b[1]):
+					nxt = []
+					for s_, ok_ in outs:
+						if not ok_:
+							nxt.append((s_, False))
+						else:
+							nxt += ueq(s_, x, y)
+					outs = nxt
+				return outs
+			# objects: greedy one-to-one matching (sound for an equivalence)
+			out = []
+
+			def match(s_, i, free):
+				if i >= len(a[1]):
+					out.append((s_, True))
+					return
+
+				def search(s2, cand):
+					if not cand:
+						out.append((s2, False))
+						return
+					j = cand[0]
+					for s3, eq in self.keys.split(s2, "eq", a[1][i][0], b[1][j][0]):
+						if not eq:
+							search(s3, cand[1:])
+							continue
+						for s4, same in ueq(s3, a[1][i][1], b[1][j][1]):
+							if same:
+								match(s4, i + 1, [x for x in free if x != j])
+							else:
+								search(s4, cand[1:])
+
+				search(s_, free)
+
+			match(st, 0, list(range(len(b[1]))))
+			return out
+
+		for X, Y in nested_pairs(level):
+			st = State()
+			st.frames.append(Frame(None, {}))
+			st.aux["nk"] = 0
+			for s1, va, ma in build(st, X):
+				for s2, vb, mb in build(s1, Y):
+					s2.frames[0].locals[1] = va
+					s2.frames[0].locals[8] = vb
+					for (x, y, mx, my, tag) in ((1, 8, ma, mb, "A,B"), (8, 1, mb, ma, "B,A")):
+						for s3, res in self.call(s2.fork(), fn, [Ref(0, x, ()), Ref(0, y, ())]):
+							for s4, want in ueq(s3, mx, my):
+								self.pairs += 1
+								if res is not want:
+									n0 = len(self.violations)
+									self.violation(s4, [["unordered_eq_nested(%s)" % tag, [nested_text(X), nested_text(Y)]]], "C15:unordered-eq-iff-permutation-of-entries-at-any-depth",
+									               "returned %r for A=%s B=%s, expected %r" % (res, nested_text(X), nested_text(Y), want))
+									if len(self.violations) > n0:
+										self.violations[-1]["shapes"] = [X, Y]
+			if len(self.violations) >= 6:
+				return
+			if budget and time.time() - t0 > budget:
+				self.timed_out = True
+				return
 
 	def multiset_eq(self, st, A, B):
 		"""[(state, bool)]: B is a permutation of A (keys compared through the solver)"""
@@ -2105,6 +2281,36 @@ def replay_mapped(native, model, qkey, keyvals):
 	return dict(object=spec, query=q, got=got, want=want, reproduced=(got != want))
 
 
+def nested_pairs(level):
+	"""pairs (X, Y) of shapes with the same top-level kind and length (the others are decided by the
+	first comparison). Inner values D: level 1: t, f, [t], {k:t}, {k:t,k:f}; level 2 adds [], {}, {k:t,k:t}. Outer: arrays and objects of <= 2 items/entries over D."""
+	D = ["t", "f", ("arr", ("t",)), ("obj", ("t",)), ("obj", ("t", "f"))]
+	if level >= 2:
+		D += [("arr", ()), ("obj", ()), ("obj", ("t", "t"))]
+	out = []
+	for kind in ("arr", "obj"):
+		for n in range(0, 3):
+			vals = [(kind, x) for x in itertools.product(D, repeat=n)]
+			out += [(a_, b_) for a_ in vals for b_ in vals]
+	# a few pairs of different kind / length
+	out += [("t", ("arr", ())), (("arr", ()), ("obj", ())), (("arr", ("t",)), ("arr", ("t", "t"))), (("obj", ("t",)), ("obj", ("t", "t")))]
+	return out
+
+
+def nested_text(v, ctr=None):
+	ctr = ctr if ctr is not None else {"k": 0}
+	if v in ("t", "f"):
+		return "true" if v == "t" else "false"
+	if v[0] == "arr":
+		return "[" + ",".join(nested_text(c, ctr) for c in v[1]) + "]"
+	parts = []
+	for c in v[1]:
+		inner = nested_text(c, ctr)
+		parts.append('"k%d":%s' % (ctr["k"], inner))
+		ctr["k"] += 1
+	return "{" + ",".join(parts) + "}"
+
+
 def frag_shapes(level):
 	"""level 1: nesting depth <= 2, containers of <= 2 items/entries (115 values); level 2: depth <= 2
 	with <= 3 items/entries plus depth <= 3 chains (<= 1 item/entry per container)"""
@@ -2255,6 +2461,57 @@ def replay_convert(native, depth, text):
 	return dict(depth=depth, value=text, got=got, want=want, reproduced=(got != want))
 
 
+def replay_nested(native, X, Y, keyvals):
+	"""Value::unordered_eq of two concrete nested values (keys instantiated with the solver's model,
+	numbered in construction order: children before their entry's key, A before B) on the REAL values
+	parsed from text, against the recursive definition"""
+	import subprocess
+
+	ctr = {"k": 0}
+
+	def conc(v):
+		if v in ("t", "f"):
+			return v == "t"
+		if v[0] == "arr":
+			return ("arr", [conc(c) for c in v[1]])
+		ents = []
+		for c in v[1]:
+			inner = conc(c)
+			k = keyvals[ctr["k"]] if ctr["k"] < len(keyvals) else 0x41 + ctr["k"]
+			ctr["k"] += 1
+			ents.append((k, inner))
+		return ("obj", ents)
+
+	def text(v):
+		if isinstance(v, bool):
+			return "true" if v else "false"
+		if v[0] == "arr":
+			return "[" + ",".join(text(c) for c in v[1]) + "]"
+		return "{" + ",".join("%s:%s" % (json.dumps(chr(k)), text(c)) for k, c in v[1]) + "}"
+
+	def ueq(a, b):
+		if isinstance(a, bool) or isinstance(b, bool):
+			return isinstance(a, bool) and isinstance(b, bool) and a == b
+		if a[0] != b[0] or len(a[1]) != len(b[1]):
+			return False
+		if a[0] == "arr":
+			return all(ueq(x, y) for x, y in zip(a[1], b[1]))
+		free = list(range(len(b[1])))
+		for k, v in a[1]:
+			j = next((j for j in free if b[1][j][0] == k and ueq(v, b[1][j][1])), None)
+			if j is None:
+				return False
+			free.remove(j)
+		return True
+
+	a, b = conc(X), conc(Y)
+	ta, tb = text(a), text(b)
+	p = subprocess.run([native, "unordn", ta, tb], stdout=subprocess.PIPE, stderr=subprocess.DEVNULL, timeout=60)
+	got = p.stdout.decode(errors="replace").strip()
+	w = str(ueq(a, b)).lower()
+	return dict(a=ta, b=tb, got=got, want="%s %s" % (w, w), reproduced=(got != "%s %s" % (w, w)))
+
+
 def replay_unordered(native, A, B, keyvals):
 	"""unordered_eq of two concrete objects on the REAL Object, against the permutation criterion"""
 	import subprocess
@@ -2276,6 +2533,7 @@ def main():
 	ap.add_argument("--depth", type=int, default=3)
 	ap.add_argument("--unordered", type=int, default=-1, help="C15 mode: pairs of objects of <= this many entries")
 	ap.add_argument("--mapped", type=int, default=-1, help="C11 mode: mapped lookups on objects of <= this many entries")
+	ap.add_argument("--unordered-nested", type=int, default=-1, help="C15 mode: Value::unordered_eq on pairs of nested values (level 1 or 2)")
 	ap.add_argument("--fragments", type=int, default=-1, help="C11 mode: fragment lookup with a symbolic index / traversal / volume on nested values (level 1 or 2)")
 	ap.add_argument("--convert", type=int, default=-1, help="C11 mode: Vec<bool>::try_from_json_at on arrays of <= this many items")
 	ap.add_argument("--budget", type=float, default=0)
@@ -2289,6 +2547,24 @@ def main():
 		out["mir_dump_s"] = round(dt, 1)
 		ex = Explorer(a.repo, text)
 		out["functions_encoded"] = ex.prog.encoded()
+		if a.unordered_nested >= 0:
+			ex.with_content = False
+			ex.explore_unordered_nested(a.unordered_nested, a.budget)
+			native = drvcheck.build_native(a.repo, a.build)
+			for v in ex.violations:
+				kv = list(v.get("keys") or [])
+				while len(kv) < 16:
+					kv.append(0x41 + len(kv))
+				v["native"] = replay_nested(native, v["shapes"][0], v["shapes"][1], kv)
+			out.update(level=a.unordered_nested, pairs=ex.pairs, histories=ex.pairs, operations_run=ex.ops_run, mir_steps=ex.ip.stats["steps"], solver_queries=ex.keys.queries,
+			           solver_time_s=round(ex.keys.solver_time, 2), key_variables=len(ex.keys.vars), wall_s=round(time.time() - t0, 1), timed_out=ex.timed_out, violations=ex.violations)
+			out["ok"] = True
+			log("unordered_eq on nested values, level %d: %d (pair, key-relation) cases, %d solver queries, %.1fs%s, %d violation(s)" % (a.unordered_nested, ex.pairs, ex.keys.queries, time.time() - t0, " TIMED OUT" if ex.timed_out else "", len(ex.violations)))
+			if a.out:
+				json.dump(out, open(a.out, "w"), indent=1, default=str)
+			else:
+				print(json.dumps(out, indent=1, default=str)[:4000])
+			return 0
 		if a.fragments >= 0:
 			ex.with_content = False
 			ex.explore_fragments(a.fragments, a.budget)
